@@ -9,6 +9,7 @@ import (
 	"os"
 	"os/exec"
 	"path/filepath"
+	"sort"
 	"strings"
 	"syscall"
 	"testing"
@@ -39,6 +40,7 @@ type cliScript struct {
 	Cuts          []int    `json:"cuts"`      // byte positions (mod len) where the input is cut into files
 	OutFile       bool     `json:"out_file"`
 	StaleOut      bool     `json:"stale_out_file"`  // the -o file exists before the run
+	OutDevNull    bool     `json:"out_dev_null"`    // -o /dev/null: only status and stderr can be observed
 	LongLineBytes int      `json:"long_line_bytes"` // >0: the last query carries a string literal this long
 	// RelName (transport "file"): the script is passed under this bare file
 	// name, relative to the working directory of the command
@@ -353,7 +355,9 @@ func runCLI(s *cliScript, input string) (cliRun, error) {
 		stdin = input
 	}
 	outPath := ""
-	if s.OutFile {
+	if s.OutDevNull {
+		args = append([]string{"-o", "/dev/null"}, args...)
+	} else if s.OutFile {
 		outPath = filepath.Join(dir, "out.sql")
 		if s.StaleOut {
 			// the output file exists already and is longer than what this run writes
@@ -401,6 +405,20 @@ func checkCLI(s *cliScript) (msg string, harnessErr string) {
 		return "", "the CLI did not finish within 60 s (inconclusive)"
 	}
 	got := run.stdout
+	if s.OutDevNull {
+		if run.stdout != "" {
+			return fmt.Sprintf("with -o /dev/null the tool still writes to standard output: %+q", trunc(run.stdout, 200)), ""
+		}
+		if exp.asserted && s.LongLineBytes <= 65000 && s.DirAt == nil {
+			if (run.exit != 0) != (exp.failures > 0) {
+				return fmt.Sprintf("with -o /dev/null: exit status %d although %d statement(s) failed\n stderr: %s", run.exit, exp.failures, trunc(run.stderr, 300)), ""
+			}
+			if (strings.TrimSpace(run.stderr) != "") != (exp.failures > 0) {
+				return fmt.Sprintf("with -o /dev/null: standard error is %+q although %d statement(s) failed", trunc(run.stderr, 300), exp.failures), ""
+			}
+		}
+		return "", ""
+	}
 	if s.OutFile {
 		if run.stdout != "" {
 			return fmt.Sprintf("with -o the tool still writes to standard output: %+q", trunc(run.stdout, 200)), ""
@@ -459,7 +477,30 @@ func init() {
 	})
 }
 
-var cliSeps = []string{longCommentBlock(1100), longCommentBlock(4200), "\n// disabled for now:\rU | count;\n", "\n// a\rb\n", "\n", "\n", "\n", "\n", "\n", "\n", " ", "", "\n\n", "\n// a comment; with a semicolon\n", "  \n\t", "\n// c\n\n", " // trailing comment\n"}
+var cliSeps = []string{"\n\u00a0\u00a0", "\f", "\n\v", "\n\u2028", "\u3000\n", "\n\u0085 ", longCommentBlock(1100), longCommentBlock(4200), "\n// disabled for now:\rU | count;\n", "\n// a\rb\n", "\n", "\n", "\n", "\n", "\n", "\n", " ", "", "\n\n", "\n// a comment; with a semicolon\n", "  \n\t", "\n// c\n\n", " // trailing comment\n"}
+
+// cliWords: identifier-like words that occur as string literals in the
+// command's source (plus a few any shell knows).
+func cliWords() []string {
+	out := []string{"exit", "quit", "help", "version", "go", "end", "run", "clear"}
+	b, err := os.ReadFile(filepath.Join(repoDir(), "cmd", "pql", "main.go"))
+	if err != nil {
+		return out
+	}
+	seen := map[string]bool{}
+	for _, w := range out {
+		seen[w] = true
+	}
+	for _, m := range wordLiteral.FindAllStringSubmatch(string(b), -1) {
+		w := m[1]
+		if !seen[w] && plainOK(w) {
+			seen[w] = true
+			out = append(out, w)
+		}
+	}
+	sort.Strings(out)
+	return out
+}
 
 // longCommentBlock: comment lines of at least n bytes in all (a file header,
 // a commented-out block) between two statements.
@@ -561,7 +602,7 @@ func TestC16Scripts(t *testing.T) {
 				letNames = append(letNames, name) // later queries may try to use it: must then fail or see the earlier binding
 				kinds += "l"
 			case k <= 9:
-				s.Stmts = append(s.Stmts, cliStmt{"badquery", rapid.SampledFrom([]string{"T | where", "T | where tolower()", "T | bogus", "| count", "T | take 1.5", "T | where $left.a == 1", "T | join kind=weird (U) on k", "T T", "T | where a == 'x' 'y'", "let | take 1", "let", "let // the table\n| count", "let x", "`let` | take"}).Draw(rt, "badquery")})
+				s.Stmts = append(s.Stmts, cliStmt{"badquery", rapid.SampledFrom([]string{"T | where", "T | where tolower()", "T | bogus", "| count", "T | take 1.5", "T | where $left.a == 1", "T | join kind=weird (U) on k", "T T", "T | where a == 'x' 'y'", "#! | where ) oops", "#!/usr/bin/env pql", "#", "T | count /* | take", "let | take 1", "let", "let // the table\n| count", "let x", "`let` | take"}).Draw(rt, "badquery")})
 				kinds += "q"
 			case k == 10:
 				s.Stmts = append(s.Stmts, cliStmt{"empty", rapid.SampledFrom([]string{"", " ", "// only a comment\n"}).Draw(rt, "empty")})
@@ -584,6 +625,12 @@ func TestC16Scripts(t *testing.T) {
 					"T | where s == \"tail\\\\\" // c\n| count",
 				}).Draw(rt, "urlquery")})
 				kinds += "Q"
+			case k == 11:
+				// a column called like a word of the command's own source, on a
+				// line of its own inside a statement
+				w := rapid.SampledFrom(cliWords()).Draw(rt, "cliword")
+				s.Stmts = append(s.Stmts, cliStmt{"query", "T\n| project\n    a,\n    " + w + "\n| take 1"})
+				kinds += "Q"
 			default:
 				s.Stmts = append(s.Stmts, cliStmt{"query", "T"})
 				kinds += "Q"
@@ -600,6 +647,9 @@ func TestC16Scripts(t *testing.T) {
 		s.Cuts = []int{rapid.IntRange(0, 100000).Draw(rt, "cut1"), rapid.IntRange(0, 100000).Draw(rt, "cut2")}
 		s.OutFile = rapid.IntRange(0, 3).Draw(rt, "outfile") == 0
 		s.StaleOut = s.OutFile && rapid.Bool().Draw(rt, "staleout")
+		if !s.OutFile && rapid.IntRange(0, 11).Draw(rt, "devnull") == 0 {
+			s.OutDevNull = true
+		}
 		if s.Transport == "file" && rapid.IntRange(0, 2).Draw(rt, "relname") == 0 {
 			// a file is a file whatever it is called
 			s.RelName = rapid.SampledFrom([]string{"version", "help", "completion", "query", "pql", "run", "o", "out", "compile", "fmt", "x.sql", "-o.pql", "--", "stdin", "true", "1"}).Draw(rt, "relnamev")
